@@ -412,14 +412,14 @@ Section Block.
     - exact (IHl _ _ _ _ _ E).
   Qed.
 
-  Lemma items_run : forall B size slice uses items size' u,
+  Lemma items_run_x : forall B size slice uses items size' u,
     inclass B -> bsize B <= 9223372036854775807 -> 0 <= size -> 0 <= slice ->
     block_items c (map own B) size slice uses = Ok (items, size', u) ->
     size' = size + bsize B /\
     (u = false -> forall bs, unpack_fc c (bchars B) bs = Ok []) /\
-    forall buf dpre drest st, size' <= zlen buf -> length dpre = Z.to_nat slice ->
+    forall buf dpre drest dpost st, size' <= zlen buf -> length dpre = Z.to_nat slice ->
       unpack_fc c (bchars B) (skipn (Z.to_nat size) buf) = Ok drest ->
-      run_items rd buf (dpre ++ drest) items st = do r <- seq_block B buf size st; Ok (fst r).
+      run_items rd buf (dpre ++ drest ++ dpost) items st = do r <- seq_block B buf size st; Ok (fst r).
   Proof.
     unfold rd. induction B as [|f r IH]; intros size slice uses items size' u Hcl Hbig Hs Hsl H.
     - cbn in H. injection H as <- <- <-. cbn [bsize fold_right]. split; [lia|]. split; [reflexivity|]. intros. reflexivity.
@@ -450,7 +450,7 @@ Section Block.
         { rewrite bchars_cons. unfold own. rewrite Ep, Epk. cbn [fst snd]. fold n'. now rewrite Hpz, Hms. }
         split.
         * intros Hfalse bs. rewrite Hbc, unpack_skip. now apply Hu.
-        * intros buf dpre drest st Hlen Hdp Hun. rewrite Hbc, unpack_skip, skipn_skipn' in Hun.
+        * intros buf dpre drest dpost st Hlen Hdp Hun. rewrite Hbc, unpack_skip, skipn_skipn' in Hun.
           replace (Z.to_nat size + Z.to_nat (msize (f_ty f)))%nat with (Z.to_nat (size + msize (f_ty f))) in Hun by lia.
           cbn [run_items item_value seq_block fst snd]. unfold rd.
           destruct Hslc as [_ Hslc].
@@ -459,7 +459,7 @@ Section Block.
           rewrite He1 by (rewrite zlen_srest by exact Hs; unfold zlen in *; rewrite firstn_length; lia).
           rewrite He2 by (rewrite zlen_srest by exact Hs; lia). rewrite sread_firstn by lia.
           destruct (hm (sread buf size (msize (f_ty f)))) as [v|er]; cbn [bind fst snd]; [|reflexivity].
-          rewrite (Hrun buf dpre drest _ Hlen Hdp Hun). replace (size + msize (f_ty f) - size) with (msize (f_ty f)) by lia. reflexivity.
+          rewrite (Hrun buf dpre drest dpost _ Hlen Hdp Hun). replace (size + msize (f_ty f) - size) with (msize (f_ty f)) by lia. reflexivity.
       + (* taken from the unpacked tuple *)
         assert (Epk : is_packed p = true) by (destruct Hk; congruence).
         assert (Hg : (let '(g, slice', uses') := match cnt with
@@ -476,7 +476,7 @@ Section Block.
         { rewrite bchars_cons. unfold own. rewrite Ep, Epk. reflexivity. }
         assert (Hu2 : u2 = true) by exact (block_items_uses _ _ _ _ _ _ E).
         split; [intros Hfalse; congruence|].
-        intros buf dpre drest st Hlen Hdp Hun. rewrite Hbc in Hun.
+        intros buf dpre drest dpost st Hlen Hdp Hun. rewrite Hbc in Hun.
         assert (Hfit : (Z.to_nat n' * sz <= length (skipn (Z.to_nat size) buf))%nat) by (rewrite skipn_length; unfold zlen in Hlen; nia).
         rewrite (unpack_fc_repeat p sz hp Hh _ _ _ Hfit) in Hun.
         destruct (hn hp sz (Z.to_nat n') (skipn (Z.to_nat size) buf)) as [vs|] eqn:Ehn; [|discriminate]. cbn [bind] in Hun.
@@ -486,23 +486,35 @@ Section Block.
         cbn [run_items seq_block fst snd]. unfold rd.
         destruct Hslc as [_ Hslc]. destruct (Hslc buf size (p_ctx st) Hs) as [He2 _]. rewrite He2 by (rewrite zlen_srest by exact Hs; lia).
         assert (Hsr : sread buf size (msize (f_ty f)) = firstn (Z.to_nat n' * sz) (skipn (Z.to_nat size) buf)) by (unfold sread; f_equal; nia).
-        assert (Hval : item_value (fun f0 : field => read_ty c fuel (f_ty f0)) buf (dpre ++ vs ++ rest) (p_ctx st)
+        assert (Hval : item_value (fun f0 : field => read_ty c fuel (f_ty f0)) buf (dpre ++ (vs ++ rest) ++ dpost) (p_ctx st)
                          (f, match cnt with Some n => GDataN slice (slice + n) | None => GData slice end, msize (f_ty f)) = hm (sread buf size (msize (f_ty f)))).
         { rewrite Hsr. unfold n' in *. destruct cnt as [n|]; cbn [item_value].
           - rewrite (Har n eq_refl Epk), hn_firstn, Ehn by exact Hfit. cbn [bind]. f_equal. f_equal.
             rewrite skipn_app, <- Hdp, skipn_all, Nat.sub_diag. cbn [app skipn]. replace (Z.to_nat (slice + n - slice)) with (length vs) by lia.
-            rewrite firstn_app, firstn_all, Nat.sub_diag. cbn [firstn]. now rewrite app_nil_r.
+            rewrite <- app_assoc, firstn_app, firstn_all, Nat.sub_diag. cbn [firstn]. now rewrite app_nil_r.
           - rewrite (Hsc eq_refl). change (Z.to_nat 1) with 1%nat in *. rewrite Nat.mul_1_l in *. cbn [hn] in Ehn.
             destruct (hp (firstn sz (skipn (Z.to_nat size) buf))) as [v|]; [|discriminate]. cbn [bind] in Ehn. injection Ehn as <-.
             rewrite nth_error_app2 by lia. rewrite Hdp, Nat.sub_diag. reflexivity. }
         rewrite Hval. destruct (hm (sread buf size (msize (f_ty f)))) as [v|er]; cbn [bind fst snd]; [|reflexivity].
-        replace (dpre ++ vs ++ rest) with ((dpre ++ vs) ++ rest) by (now rewrite <- app_assoc).
-        rewrite (Hrun buf (dpre ++ vs) rest _ Hlen).
+        replace (dpre ++ (vs ++ rest) ++ dpost) with ((dpre ++ vs) ++ rest ++ dpost) by (now rewrite <- !app_assoc).
+        rewrite (Hrun buf (dpre ++ vs) rest dpost _ Hlen).
         * replace (size + msize (f_ty f) - size) with (msize (f_ty f)) by lia. reflexivity.
         * rewrite app_length. lia.
         * exact Eu.
   Qed.
 
+  Lemma items_run : forall B size slice uses items size' u,
+    inclass B -> bsize B <= 9223372036854775807 -> 0 <= size -> 0 <= slice ->
+    block_items c (map own B) size slice uses = Ok (items, size', u) ->
+    size' = size + bsize B /\
+    (u = false -> forall bs, unpack_fc c (bchars B) bs = Ok []) /\
+    forall buf dpre drest st, size' <= zlen buf -> length dpre = Z.to_nat slice ->
+      unpack_fc c (bchars B) (skipn (Z.to_nat size) buf) = Ok drest ->
+      run_items rd buf (dpre ++ drest) items st = do r <- seq_block B buf size st; Ok (fst r).
+  Proof.
+    intros B size slice uses items size' u Hcl Hbig Hs Hsl H. destruct (items_run_x B size slice uses items size' u Hcl Hbig Hs Hsl H) as [A [Bq Cq]].
+    split; [exact A|]. split; [exact Bq|]. intros buf dpre drest st Hlen Hdp Hun. pose proof (Cq buf dpre drest [] st Hlen Hdp Hun) as R. now rewrite app_nil_r in R.
+  Qed.
   Lemma unpack_repeat_total p sz : fixed_scalar p = Some sz -> forall k l bs m,
     (forall bs', (m <= length bs')%nat -> exists d, unpack_fc c l bs' = Ok d) -> (k * sz + m <= length bs)%nat -> exists d, unpack_fc c (repeat (FP p) k ++ l) bs = Ok d.
   Proof.
